@@ -282,7 +282,7 @@ func AddRandomMods(rng *rand.Rand, s *Spec, k ModKinds, p float64) {
 	}
 }
 
-// padLists occasionally makes a value list long (15..80 entries, well above any
+// padLists occasionally makes a value list long (15..80 or 230..330 entries, well above any
 // small-list special case) with filler values that no request uses, in the
 // polarity that leaves the rule's meaning for the vocabulary unchanged, at
 // random positions.
@@ -301,16 +301,25 @@ func padLists(rng *rand.Rand, s *Spec) {
 
 		return false
 	}
+	// One padded list in four is longer than the 4 KiB read buffer of a
+	// file-backed list (the whole rule line is).
+	many := func() int {
+		if rng.Intn(4) == 0 {
+			return 230 + rng.Intn(100)
+		}
+
+		return 15 + rng.Intn(66)
+	}
 	if len(s.Domains) > 0 && rng.Intn(25) == 0 {
 		perm := hasPermitted(s.Domains)
-		insert(15+rng.Intn(66), func(i int) {
+		insert(many(), func(i int) {
 			v := Val{Name: "f" + strconv.Itoa(i) + ".filler.example", Neg: !perm}
 			j := rng.Intn(len(s.Domains) + 1)
 			s.Domains = append(s.Domains[:j], append([]Val{v}, s.Domains[j:]...)...)
 		})
 	}
 	if len(s.DenyAllow) > 0 && rng.Intn(25) == 0 {
-		insert(15+rng.Intn(66), func(i int) {
+		insert(many(), func(i int) {
 			j := rng.Intn(len(s.DenyAllow) + 1)
 			s.DenyAllow = append(s.DenyAllow[:j], append([]string{"f" + strconv.Itoa(i) + ".filler.example"}, s.DenyAllow[j:]...)...)
 		})
